@@ -49,7 +49,7 @@ fn viol(cx: &Cx, prop: &str, class: &str, d: &Desc, opts: &str, ty: &str, input:
             return;
         }
     }
-    let sig = format!("{prop}|{class}|{}", if ty.starts_with('f') { "float" } else { "int" });
+    let sig = format!("{prop}|{class}|{}|{}", if ty.starts_with('f') { "float" } else { "int" }, cause(d, class));
     cx.rep.violation(
         &sig,
         obj(&[
@@ -64,6 +64,25 @@ fn viol(cx: &Cx, prop: &str, class: &str, d: &Desc, opts: &str, ty: &str, input:
             ("detail", detail),
         ]),
     );
+}
+
+/// Coarse trait of the (format, input) pair that known findings are keyed on, so that a listed
+/// finding about e.g. base-suffix formats cannot hide a violation in plain formats.
+fn cause(d: &Desc, class: &str) -> &'static str {
+    // classes produced by a specific recogniser of one root cause are not split further
+    if class.contains(':') {
+        return "-";
+    }
+    if !d.has(RMD) {
+        return "no-required-mantissa-digits";
+    }
+    if d.suffix != 0 {
+        return "base-suffix-format";
+    }
+    if d.prefix != 0 {
+        return "base-prefix-format";
+    }
+    "-"
 }
 
 /// punctuation that is valid for the format: not a digit of the largest radix, not a sign, distinct
@@ -259,7 +278,11 @@ fn judge_float<T: LFloat, const FMT: u128, const NOSEP: u128>(cx: &mut Cx, d: &D
             let special = k.is_nan(b) || ((b & k.abs_mask()) == k.inf_bits() && !input.iter().any(|c| c.is_ascii_digit()));
             if special {
                 if !d.has(SSEP) {
-                    viol(cx, "C15", "separator-in-special-without-flag", d, &fo.name, ty, input, fmt_rf(&rc));
+                    let body: &[u8] = if matches!(input.first(), Some(b'+') | Some(b'-')) { &input[1..] } else { input };
+                    let lead = body.iter().take_while(|&&c| c == d.sep).count();
+                    let only_leading = lead > 0 && !body[lead..].contains(&d.sep);
+                    let class = if only_leading { "separator-in-special-without-flag:leading-separators-skipped-before-special" } else { "separator-in-special-without-flag" };
+                    viol(cx, "C15", class, d, &fo.name, ty, input, fmt_rf(&rc));
                 }
             } else {
                 let stripped: Vec<u8> = input.iter().copied().filter(|&c| c != d.sep).collect();
@@ -345,7 +368,12 @@ fn judge_int<T: LInt, const FMT: u128, const NOSEP: u128>(cx: &mut Cx, d: &Desc,
         if *n > 0 && *n < input.len() {
             let pre = parse_complete_opt::<T, FMT>(&mut cx.arena, &input[..*n], place, io);
             if !matches!(&pre, R::Ok(v, _) if v == w) {
-                viol(cx, "C11", "prefix-not-complete", d, "", ty, input, format!("partial={} complete(prefix)={}", fmt_ri(&rp), fmt_ri(&pre)));
+                // the consumed prefix holds no digit at all: only a sign and/or the base prefix
+                let body: &[u8] = if input[0] == b'+' || input[0] == b'-' { &input[1..*n] } else { &input[..*n] };
+                let just_prefix = d.prefix != 0 && body.len() == 2 && body[0] == b'0' && body[1].to_ascii_lowercase() == d.prefix.to_ascii_lowercase();
+                let sign_only = w.split().1 == 0 && body.len() < *n && (body.is_empty() || just_prefix) || (w.split().1 == 0 && just_prefix);
+                let class = if sign_only { "prefix-not-complete:partial-consumed-only-sign-or-base-prefix" } else { "prefix-not-complete" };
+                viol(cx, "C11", class, d, "", ty, input, format!("partial={} complete(prefix)={}", fmt_ri(&rp), fmt_ri(&pre)));
             }
         }
     }
@@ -375,7 +403,14 @@ fn judge_int<T: LInt, const FMT: u128, const NOSEP: u128>(cx: &mut Cx, d: &Desc,
             let nc = parse_complete_opt::<T, NOSEP>(&mut cx.arena, input, place, io);
             let np = parse_partial_opt::<T, NOSEP>(&mut cx.arena, input, place, io);
             if rc != nc || rp != np {
-                viol(cx, "C13", "sepfree-input-differs-from-counterpart", d, "", ty, input, format!("with: {} / {} without: {} / {}", fmt_ri(&rc), fmt_ri(&rp), fmt_ri(&nc), fmt_ri(&np)));
+                // partial parse that found no digit: Err(Empty(i)) in a separator format, Ok((0, i)) otherwise
+                let empty_vs_zero = rc == nc
+                    && match (&rp, &np) {
+                        (R::Err(e), R::Ok(v, n)) => err_kind(e) == "Empty" && err_index(e) == *n as i64 && v.split().1 == 0,
+                        _ => false,
+                    };
+                let class = if empty_vs_zero { "sepfree-input-differs-from-counterpart:partial-without-digits-empty-vs-zero" } else { "sepfree-input-differs-from-counterpart" };
+                viol(cx, "C13", class, d, "", ty, input, format!("with: {} / {} without: {} / {}", fmt_ri(&rc), fmt_ri(&rp), fmt_ri(&nc), fmt_ri(&np)));
             }
         }
     } else if let R::Ok(v, _) = &rc {
@@ -699,6 +734,50 @@ fn long_floats(rng: &mut Rng, d: &Desc, p: &POpts, thorough: bool, out: &mut Vec
     }
 }
 
+/// arbitrary bytes, spliced non-ASCII, very long components: for the totality / agreement oracles
+fn hostile(rng: &mut Rng, d: &Desc, p: &POpts, n: usize, long: bool, out: &mut Vec<Vec<u8>>) {
+    for _ in 0..n {
+        let len = rng.below(25) as usize;
+        let mode = rng.below(3);
+        let t: Vec<u8> = (0..len)
+            .map(|_| match (mode, rng.below(8)) {
+                (0, _) | (_, 0) => rng.next_u64() as u8,
+                (_, 1) => *rng.pick(&[b'+', b'-', p.point, p.exp, if d.sep != 0 { d.sep } else { b'_' }, if d.prefix != 0 { d.prefix } else { b'x' }]),
+                _ => digit_char(rng.below(d.radix as u64) as u8),
+            })
+            .collect();
+        out.push(t);
+    }
+    if long {
+        for &l in &[700usize, 4096, 16384] {
+            let mut digs = Vec::new();
+            rand_digits(rng, d.radix as u32, l, &mut digs);
+            digs[0] = b'1';
+            out.push(digs.clone());
+            let mut t = digs.clone();
+            t.insert(l / 3, p.point);
+            out.push(t);
+            let mut t = vec![b'1', p.exp];
+            t.extend(digs.iter().map(|&c| if digit_value(c) < d.eradix() { c } else { b'1' }));
+            out.push(t);
+            if d.sep != 0 {
+                let mut t = Vec::new();
+                for (i, &c) in digs.iter().enumerate() {
+                    t.push(c);
+                    if i % 3 == 2 && i + 1 < digs.len() {
+                        t.push(d.sep);
+                    }
+                }
+                out.push(t.clone());
+                t.insert(l / 2, p.point);
+                out.push(t);
+                out.push(vec![d.sep; l]);
+            }
+            out.push(vec![b'0'; l]);
+        }
+    }
+}
+
 fn run_format<const FMT: u128, const NOSEP: u128>(cx: &mut Cx, d: &Desc, idx: usize, seed: u64, only: Option<(&str, &[u8], u32)>) {
     let mut rng = Rng::stream(seed, 9000 + idx as u64 * 7 + SET as u64);
     let io = lexical_core::ParseIntegerOptions::new();
@@ -733,6 +812,7 @@ fn run_format<const FMT: u128, const NOSEP: u128>(cx: &mut Cx, d: &Desc, idx: us
             inputs.push(token_float(&mut rng, d, &fo.p));
         }
         long_floats(&mut rng, d, &fo.p, cx.thorough, &mut inputs);
+        hostile(&mut rng, d, &fo.p, ntok / 8, variant == 0, &mut inputs);
         // special strings neighbourhood (exhaustive single-case-flips, prefixes, extensions)
         for sp in [&fo.p.nan, &fo.p.inf, &fo.p.infinity].into_iter().flatten() {
             for sign in [&b""[..], b"+", b"-"] {
@@ -894,7 +974,7 @@ fn main() {
     let nfmt = args.get_u64("nfmt", 64) as usize;
     let total = std::sync::Mutex::new(0u64);
     report::parallel(if replay_in.is_some() { 1 } else { args.threads }, |shard, nshards| {
-        let mut cx = Cx { rep: &rep, cfg: cfg.clone(), prop: prop.clone(), counts: BTreeMap::new(), arena: Arena::new(1 << 14), n: shard as u64, distinct: 0, thorough };
+        let mut cx = Cx { rep: &rep, cfg: cfg.clone(), prop: prop.clone(), counts: BTreeMap::new(), arena: Arena::new(1 << 16), n: shard as u64, distinct: 0, thorough };
         macro_rules! go {
             ($($i:literal)*) => {$(
                 {
@@ -905,7 +985,9 @@ fn main() {
                         const FMT: u128 = fmt_of(IDX);
                         const NOSEP: u128 = nosep_of(IDX);
                         let d = desc_of::<FMT>(IDX);
-                        if SET == SET_INVALID {
+                        if SET != SET_INVALID && !lexical_core::format_is_valid::<FMT>() {
+                            rep.inconclusive(format!("sampled format #{IDX} {} is not valid for lexical: {:?}", d.name(), lexical_core::format_error::<FMT>()));
+                        } else if SET == SET_INVALID {
                             let _ = only;
                             run_invalid::<FMT>(&mut cx, &d, IDX, args.seed);
                         } else {
